@@ -325,6 +325,117 @@ pub fn run(prop: &str, tier: &str, replay: Option<&str>) -> i32 {
         });
         rep.add(sec);
     }
+    // C1b'''. the LENGTH of the validity period: notAfter = notBefore + d days for every d in 0..=900 and some longer spans
+    // (a threshold on the duration can sit anywhere: 90, 397, 398, 825 days are numbers other software knows)
+    {
+        let mut days: Vec<i64> = (0..=900).collect();
+        days.extend([1095, 1096, 1825, 3650, 3653, 7305, 9125, 36500, 36525]);
+        let starts = [TimeSpec::ymd(2024, 3, 1), TimeSpec::ymdhms(2049, 1, 1, 12, 0, 0)];
+        let cases: Vec<(usize, i64)> = (0..starts.len()).flat_map(|s| days.iter().map(move |d| (s, *d))).collect();
+        let ctx = stub_self_ctx(Alg::Ed25519, 1);
+        let sec = Section::new("sweep/validity-durations", "notAfter = notBefore + d days for d in 0..=900 and 9 longer spans, from two starting points (one of them crosses 2050)");
+        run::sweep_cases(&sec, &cases, &|c| format!("start #{} + {} days", c.0, c.1), &|c| {
+            let mut st = CertState::default();
+            st.not_before = starts[c.0];
+            st.not_after = TimeSpec { unix: starts[c.0].unix + c.1 * 86400, ..starts[c.0] };
+            judge.judge(&st, &ctx)
+        });
+        rep.add(sec);
+    }
+    // C1b''''. fields that stand in a relation to each other: the same value in two places, a pair that contradicts itself, an
+    // ordering turned round; each state is ordinary field by field
+    {
+        let dns = "shared.example";
+        let uri = "http://shared.example/crl";
+        let name = DnSpec(vec![(DnTypeSpec::O, StrKind::Utf8, "Shared".into()), (DnTypeSpec::Cn, StrKind::Utf8, "shared.example".into())]);
+        let mut cases: Vec<(&'static str, CertState)> = Vec::new();
+        let mut add = |l: &'static str, f: &dyn Fn(&mut CertState)| {
+            let mut st = CertState::default();
+            f(&mut st);
+            cases.push((l, st));
+        };
+        add("the same URI as alternative name and as CRL distribution point", &|st| {
+            st.sans = vec![SanSpec::Uri(uri.into())];
+            st.crl_dps = vec![vec![uri.into()]];
+        });
+        add("the same DNS name as alternative name, permitted and excluded subtree", &|st| {
+            st.is_ca = IsCaSpec::Unconstrained;
+            st.sans = vec![SanSpec::Dns(dns.into())];
+            st.nc = Some(NcSpec { permitted: vec![SubtreeSpec::Dns(dns.into())], excluded: vec![SubtreeSpec::Dns(dns.into())] });
+        });
+        add("the subject as directoryName subtree", &|st| {
+            st.is_ca = IsCaSpec::Constrained(0);
+            st.dn = name.clone();
+            st.nc = Some(NcSpec { permitted: vec![SubtreeSpec::Dir(name.clone())], excluded: vec![] });
+            st.use_aki = true;
+        });
+        add("notAfter before notBefore", &|st| {
+            st.not_before = TimeSpec::ymd(2030, 1, 1);
+            st.not_after = TimeSpec::ymd(2020, 1, 1);
+        });
+        add("notAfter equal to notBefore", &|st| {
+            st.not_before = TimeSpec::ymd(2030, 1, 1);
+            st.not_after = TimeSpec::ymd(2030, 1, 1);
+        });
+        add("key usage without keyCertSign on a CA with path length 0, name constraints and AKI", &|st| {
+            st.is_ca = IsCaSpec::Constrained(0);
+            st.key_usages = vec![0, 6];
+            st.use_aki = true;
+            st.nc = Some(NcSpec { permitted: vec![SubtreeSpec::Dns("a.example".into())], excluded: vec![] });
+        });
+        add("keyCertSign on an end-entity certificate with serverAuth", &|st| {
+            st.is_ca = IsCaSpec::ExplicitNoCa;
+            st.key_usages = vec![5];
+            st.ekus = vec![EkuSpec::ServerAuth];
+        });
+        add("key usage cRLSign only with EKU clientAuth + emailProtection", &|st| {
+            st.key_usages = vec![6];
+            st.ekus = vec![EkuSpec::ClientAuth, EkuSpec::EmailProtection];
+        });
+        add("serial equal to the pre-specified key identifier", &|st| {
+            st.serial = Some(vec![0x11, 0x22, 0x33, 0x44]);
+            st.key_id = KeyIdSpec::Pre(vec![0x11, 0x22, 0x33, 0x44]);
+            st.is_ca = IsCaSpec::Unconstrained;
+            st.use_aki = true;
+        });
+        add("custom extension with the OID of an extended key usage that is also requested", &|st| {
+            st.ekus = vec![EkuSpec::Other(vec![1, 3, 6, 1, 4, 1, 55555, 9])];
+            st.custom_exts = vec![CustomExtSpec { oid: vec![1, 3, 6, 1, 4, 1, 55555, 9], critical: false, content: vec![0x05, 0x00], acme: false }];
+        });
+        add("the common name also as DNS, e-mail and URI alternative name", &|st| {
+            st.dn = DnSpec::cn("shared.example");
+            st.sans = vec![SanSpec::Dns(dns.into()), SanSpec::Email(dns.into()), SanSpec::Uri(dns.into())];
+        });
+        add("an IP alternative name equal to the base of a permitted and of an excluded subnet", &|st| {
+            st.is_ca = IsCaSpec::Unconstrained;
+            st.sans = vec![SanSpec::Ip(vec![10, 1, 2, 0])];
+            st.nc = Some(NcSpec { permitted: vec![SubtreeSpec::Ip(CidrSpec { addr: vec![10, 1, 2, 0], prefix: 24, ctor: CidrCtor::AddrPrefix })], excluded: vec![SubtreeSpec::Ip(CidrSpec { addr: vec![10, 1, 2, 0], prefix: 32, ctor: CidrCtor::AddrPrefix })] });
+        });
+        add("every list-typed field with exactly one element, every optional field set", &|st| {
+            st.is_ca = IsCaSpec::Constrained(3);
+            st.dn = name.clone();
+            st.sans = vec![SanSpec::Dns(dns.into())];
+            st.key_usages = vec![5];
+            st.ekus = vec![EkuSpec::Any];
+            st.crl_dps = vec![vec![uri.into()]];
+            st.custom_exts = vec![CustomExtSpec { oid: vec![1, 2, 3, 4], critical: true, content: vec![0x05, 0x00], acme: false }];
+            st.nc = Some(NcSpec { permitted: vec![SubtreeSpec::Dns(dns.into())], excluded: vec![] });
+            st.use_aki = true;
+            st.serial = Some(vec![3]);
+            st.key_id = KeyIdSpec::Sha512;
+        });
+        let ctxs = [stub_self_ctx(Alg::Ed25519, 1), stub_issuer_ctx(Alg::EcP256, &DnSpec::cn("issuer"), &KeyIdSpec::Sha256, Alg::Ed25519, "pair"), stub_issuer_ctx(Alg::RsaSha256, &name, &KeyIdSpec::Sha384, Alg::EcP384, "spki")];
+        let all: Vec<(usize, usize)> = (0..cases.len()).flat_map(|i| (0..ctxs.len()).map(move |c| (i, c))).collect();
+        let sec = Section::new("sweep/related-fields", &format!("{} states whose fields stand in a relation (one value in two places, contradicting usages, an ordering turned round, every optional field at once) x 3 contexts (self-signed, issuer-signed, an RSA issuer named like the subject certifying a bare SubjectPublicKeyInfo)", cases.len()));
+        run::sweep_cases(&sec, &all, &|c| format!("{} ctx#{}", cases[c.0].0, c.1), &|c| {
+            // states that are not conformant input are not C05's
+            if conformant_only && (cases[c.0].0.contains("notAfter") || cases[c.0].0.contains("keyCertSign on an end-entity") || cases[c.0].0.contains("without keyCertSign")) {
+                return Outcome::default();
+            }
+            judge.judge(&cases[c.0].1, &ctxs[c.1])
+        });
+        rep.add(sec);
+    }
     // C1b''. OID arcs at the base-128 boundaries (127 / 128, 16383 / 16384, 2^21, 2^28, 2^32, 2^35, ... 2^63, u64::MAX) in the
     // second-from-last and last position of a custom attribute type, a custom extension, an extended key usage and an
     // otherName type, all in one certificate
@@ -359,13 +470,13 @@ pub fn run(prop: &str, tier: &str, replay: Option<&str>) -> i32 {
     // C1c. element counts: lists of n elements for n around 127/128, 255/256 (and 0..3, 1000) in every list-typed field
     {
         // every count up to 40 (a threshold can sit anywhere), then around the powers of two and the DER length-form boundaries
-        let mut counts: Vec<usize> = (0..=40).collect();
-        counts.extend([63, 64, 65, 100, 126, 127, 128, 129, 255, 256, 257, 1000]);
+        let mut counts: Vec<usize> = (0..=130).collect();
+        counts.extend([255, 256, 257, 1000]);
         let fields = ["sans", "ekus", "custom_exts", "crl_dps", "crl_dp uris", "nc permitted", "nc excluded", "dn attributes", "key usages (repeated)"];
         // a distribution point without any URI is a caller-supplied empty GeneralNames: not a conformant parameter set
         let cases: Vec<(usize, usize)> = (0..fields.len()).flat_map(|f| counts.iter().map(move |n| (f, *n))).filter(|c| !(conformant_only && c.0 == 4 && c.1 == 0)).collect();
         let ctx = stub_self_ctx(Alg::Ed25519, 1);
-        let sec = Section::new("sweep/element-counts", "lists of 0..=40, 63..65, 100, 126..129, 255..257, 1000 elements in each list-typed field (alternative names, extended key usages, custom extensions, CRL distribution points and their URIs, permitted / excluded subtrees, name attributes, repeated key usages)");
+        let sec = Section::new("sweep/element-counts", "lists of 0..=130, 255..257, 1000 elements in each list-typed field (alternative names, extended key usages, custom extensions, CRL distribution points and their URIs, permitted / excluded subtrees, name attributes, repeated key usages)");
         run::sweep_cases(&sec, &cases, &|c| format!("{} x {}", fields[c.0], c.1), &|c| {
             let n = c.1;
             let mut st = CertState::default();
